@@ -12,7 +12,51 @@ PREFIX_METHODS = tuple(m for m in PREFIX_OF.values() if m)
 
 
 def norm(s):
-    return s.replace(").0", ")").replace("arg1.", "").replace("_1.", "")
+    return desat(s.replace(").0", ")").replace("arg1.", "").replace("_1.", ""))
+
+
+def _split_args(s):
+    out, depth, cur = [], 0, ""
+    for ch in s:
+        if ch in "([{<":
+            depth += 1
+        elif ch in ")]}>":
+            depth -= 1
+        if ch == "," and depth == 0:
+            out.append(cur.strip())
+            cur = ""
+        else:
+            cur += ch
+    if cur.strip():
+        out.append(cur.strip())
+    return out
+
+
+def desat(s):
+    """rewrite saturating/checked/wrapping add/sub calls as infix arithmetic so that a repair of an overflow
+    (`a + b` -> `a.saturating_add(b)`) keeps the same canonical form: the rules are about *which* quantities are
+    combined, not about how overflow is handled."""
+    import re
+    for name, op in (("saturating_add", "+"), ("checked_add", "+"), ("wrapping_add", "+"),
+                     ("saturating_sub", "-s"), ):
+        while True:
+            m = re.search(r"(<impl \w+>::|core::num::<impl \w+>::)?%s\(" % name, s)
+            if not m or op == "-s":
+                break
+            start = m.end()
+            depth, i = 1, start
+            while i < len(s) and depth > 0:
+                if s[i] in "([{":
+                    depth += 1
+                elif s[i] in ")]}":
+                    depth -= 1
+                i += 1
+            inner = s[start:i - 1]
+            args = _split_args(inner)
+            if len(args) != 2:
+                break
+            s = s[:m.start()] + "(%s %s %s)" % (args[0], op, args[1]) + s[i:]
+    return s
 
 
 def stop_prefix(c):
